@@ -65,15 +65,27 @@ func cmdVerify(args []string) int {
 	fmt.Printf("loaded in %.1fs\n", p.LoadSecs)
 	bad := 0
 	for _, name := range rest[1:] {
-		fn := p.Func(rel, name)
-		if fn == nil {
-			fmt.Printf("function %s not found in %s\n", name, rel)
-			bad++
-			continue
-		}
 		x := sym.NewExec(p.Prog, p.Specs)
 		t0 := time.Now()
-		rep := x.Verify(fn)
+		var rep *sym.FuncReport
+		if strings.HasPrefix(name, "lemma:") {
+			path := load.ModulePath + "/" + rel
+			db := p.Specs[path]
+			if db == nil || db.Funcs[name] == nil {
+				fmt.Printf("lemma %s not found in %s\n", name, rel)
+				bad++
+				continue
+			}
+			rep = x.VerifyLemma(p.Pkgs[path], db.Funcs[name])
+		} else {
+			fn := p.Func(rel, name)
+			if fn == nil {
+				fmt.Printf("function %s not found in %s\n", name, rel)
+				bad++
+				continue
+			}
+			rep = x.Verify(fn)
+		}
 		gen := time.Since(t0)
 		var ps []*sym.Prepared
 		for _, o := range rep.Obligations {
